@@ -123,3 +123,35 @@ Definition api_nlri_in_range (x : api_nlri) : Prop :=
   | PVpn _ d _ _ => api_rd_in_range d
   | _ => True
   end.
+
+(* EVPN routes (RFC 7432 s7, RFC 9136 s3.1): what packet/src/evpn.rs decodes.  Labels
+   are 24-bit fields, the ESI is ten octets, a MAC address six, an IP-prefix route's
+   length is within the width of its prefix and its gateway is of the same family. *)
+Definition wf_ip (i : ipaddr) : Prop :=
+  match i with IP4 a => a < 2 ^ 32 | IP6 a => a < 2 ^ 128 end.
+Definition wf_esi (e : list N) : Prop := length e = 10%nat /\ bytes_ok e.
+Definition wf_label24 (l : N) : Prop := l < 16777216.
+
+Definition wf_evpn (e : evpn) : Prop :=
+  match e with
+  | EvAd d esi etag label => wf_rd d /\ wf_esi esi /\ u32_ok etag /\ wf_label24 label
+  | EvMac d esi etag mac ip l1 l2 =>
+      wf_rd d /\ wf_esi esi /\ u32_ok etag /\ (length mac = 6%nat /\ bytes_ok mac)
+      /\ match ip with Some i => wf_ip i | None => True end
+      /\ wf_label24 l1 /\ match l2 with Some l => wf_label24 l | None => True end
+  | EvImet d etag ip => wf_rd d /\ u32_ok etag /\ wf_ip ip
+  | EvEs d esi ip => wf_rd d /\ wf_esi esi /\ wf_ip ip
+  | EvPfx d esi etag pfx plen gw label =>
+      wf_rd d /\ wf_esi esi /\ u32_ok etag /\ wf_ip pfx /\ wf_ip gw
+      /\ same_family pfx gw = true /\ plen <= ip_width pfx /\ wf_label24 label
+  end.
+
+Definition api_esi_in_range (e : api_esi) : Prop :=
+  match e with Some (t, v) => u32_ok t /\ bytes_ok v | None => True end.
+Definition api_evpn_in_range (x : api_evpn) : Prop :=
+  match x with
+  | AEvAd d esi etag _ | AEvMac d esi etag _ _ _ | AEvPfx d esi etag _ _ _ _ =>
+      api_rd_in_range d /\ api_esi_in_range esi /\ u32_ok etag
+  | AEvImet d etag _ => api_rd_in_range d /\ u32_ok etag
+  | AEvEs d esi _ => api_rd_in_range d /\ api_esi_in_range esi
+  end.
